@@ -30,3 +30,14 @@ Theorem c04_accept : forall pr s p idx,
   snd (step pr s (Put p idx)) = Accepted.
 Proof. exact accept_first_fit. Qed.
 Print Assumptions c04_accept.
+
+(* first-fit contiguous policy (Pascal): accepted as soon as SOME free run of the needed length exists, wherever it lies *)
+Theorem c04_accept_contiguous : forall pr s p idx,
+  p_contig pr = true -> p <> [] -> idx <> [] -> dir_exists s (parent p) = true -> lookup (files s) p = None ->
+  (p_holes pr = true \/ dense (norm_idx (if p_force0 pr then 0 :: idx else idx)) = true) ->
+  forall s1, ensure_slot pr s (parent p) (entries_of pr (norm_idx (if p_force0 pr then 0 :: idx else idx))) = Some s1 ->
+  (exists b, In b (all_units pr) /\
+     run_from pr (used s1) b (N.to_nat (lenN (norm_idx (if p_force0 pr then 0 :: idx else idx)) + meta_units pr (norm_idx (if p_force0 pr then 0 :: idx else idx)))) = true) ->
+  snd (step pr s (Put p idx)) = Accepted.
+Proof. exact accept_contiguous. Qed.
+Print Assumptions c04_accept_contiguous.
